@@ -124,6 +124,8 @@ func methodBodyBlock(itf *idl.InterfaceType, method idl.Method,
 	).Call(jen.Id("msg.Payload"))
 	if len(method.Params) != 0 {
 		writing = append(writing, code)
+		// a parameter without content (an empty tuple) does not read buf
+		writing = append(writing, jen.Id("_ = buf // discard unused variable error"))
 	}
 
 	for _, param := range method.Params {
@@ -575,6 +577,8 @@ func generateStubPropertyCallback(file *jen.File, itf *idl.InterfaceType) error 
 			"bytes", "NewBuffer",
 		).Call(jen.Id("data"))
 		writing = append(writing, code)
+		// a property without content (an empty tuple) does not read buf
+		writing = append(writing, jen.Id("_ = buf // discard unused variable error"))
 		code = jen.List(jen.Id("prop"), jen.Err()).Op(":=").Add(
 			property.Type().Unmarshal("buf"),
 		)
